@@ -106,8 +106,11 @@ pub fn gen_include_tree(r: &mut Rng) -> (Tree, String) {
             if !shared.is_empty() && !miss(r) { "shared/*.s*".to_string() } else { "*/none.slt".to_string() }
         } else {
             let (d1, fs1, _) = *r.pick(&with_files);
-            match r.below(9) {
+            match r.below(10) {
                 0 => format!("{}/*.s*", d1),
+                // a pattern that also matches directories: a directory cannot be read as a test file,
+                // which is a located error (`ReadFile`; the pinned tree panicked, D27)
+                9 => r.pick(&[format!("{}/*", d1), "*".to_string(), format!("{}", d1)]).clone(),
                 1 => format!("{}/{}", d1, r.pick(fs1)),
                 2 => format!("*/{}", r.pick(fs1)),
                 3 => format!("{}*/*.s*", &d1[..1]),
